@@ -236,11 +236,25 @@ func runC03(tier string, seed uint64) {
 // ---------------------------------------------------------------- C04
 
 func (s *Sess) walk(b, prefix, delim string, maxKeys int, v2 bool, nKeys int) {
+	s.walkFrom(b, prefix, delim, maxKeys, v2, nKeys, "")
+}
+
+// walkFrom: sa != "" (V2 only) starts the walk with start-after=sa and, like the SDK paginators,
+// repeats that parameter next to the continuation token on every later page
+func (s *Sess) walkFrom(b, prefix, delim string, maxKeys int, v2 bool, nKeys int, sa string) {
 	emit(s.prop, "WB", fmt.Sprint(maxKeys))
 	marker, has := "", false
 	terminated := false
 	for page := 0; page < nKeys+6; page++ {
-		r := s.List(ListReq{Bucket: b, Prefix: prefix, Delim: delim, Marker: marker, HasMarker: has, MaxKeys: maxKeys, V2: v2})
+		q := ListReq{Bucket: b, Prefix: prefix, Delim: delim, Marker: marker, HasMarker: has, MaxKeys: maxKeys, V2: v2}
+		if sa != "" {
+			if !has {
+				q.Marker, q.HasMarker, q.StartAfter = sa, true, true
+			} else {
+				q.AlsoStartAfter = sa
+			}
+		}
+		r := s.List(q)
 		if r.Resp.Status != 200 {
 			break
 		}
@@ -259,7 +273,11 @@ func (s *Sess) walk(b, prefix, delim string, maxKeys int, v2 bool, nKeys int) {
 		marker, has = next, true
 	}
 	emit(s.prop, "WF")
-	s.List(ListReq{Bucket: b, Prefix: prefix, Delim: delim, MaxKeys: -1, V2: v2})
+	if sa != "" {
+		s.List(ListReq{Bucket: b, Prefix: prefix, Delim: delim, MaxKeys: -1, V2: v2, Marker: sa, HasMarker: true, StartAfter: true})
+	} else {
+		s.List(ListReq{Bucket: b, Prefix: prefix, Delim: delim, MaxKeys: -1, V2: v2})
+	}
 	emit(s.prop, "WE", boolField(terminated))
 }
 
@@ -301,6 +319,16 @@ func runC04(tier string, seed uint64) {
 						v2 := rng.Bool()
 						s.walk(b, p, d, mk, v2, len(keys)+1)
 						nontrivial(fmt.Sprint(keys, p, d, mk, v2))
+						if mk <= 2 && len(keys) > 0 {
+							// V2 from a start-after that is repeated next to every continuation token
+							sa := keys[rng.Intn(len(keys))]
+							if rng.Bool() {
+								sa = sa[:len(sa)-1]
+							}
+							if sa != "" {
+								s.walkFrom(b, p, d, mk, true, len(keys)+1, sa)
+							}
+						}
 					}
 					// arbitrary markers: each key, key with last byte +-1, beyond the end
 					var markers []string
@@ -358,6 +386,6 @@ func runC04(tier string, seed uint64) {
 			s.end()
 		}
 	}
-	sample("walks: for key sets as in C03 x prefixes {'',a,a/,b,ab} x delimiter {none,/,b} x max-keys 1..n+1, V1 (NextMarker or last key) and V2 (continuation token) followed to the end and compared with the unpaginated listing; delete-marked ghost key present")
+	sample("walks: for key sets as in C03 x prefixes {'',a,a/,b,ab} x delimiter {none,/,b} x max-keys 1..n+1, V1 (NextMarker or last key) and V2 (continuation token; also starting from a start-after that is resent with every token, as SDK paginators do) followed to the end and compared with the unpaginated listing; delete-marked ghost key present")
 	sample("single pages from arbitrary markers (each key, last byte +-1, key+'/', beyond the end, start-after); bolt/fs: every max-keys 0..6 with and without marker, WithUnimplementedPageError on and off")
 }
